@@ -101,6 +101,36 @@ CHECKS = {
             "else unchanged) is compared with ref.exc.",
             "Trusted: armmc/ref/exc.py. External/asynchronous aborts and debug exceptions are constant-false mocks in the "
             "emulator and are not explored; HSR syndrome values are not compared.", "3 C11"),
+    "C02": ("product enumeration of generated load/store instances per encoding row, stepped on the real emulator, "
+            "whole post-state compared with the reference model",
+            "For each of the 115 single-register load/store encoding rows (word/byte/half/signed/dual, immediate, literal, "
+            "register, unprivileged, exclusive; A1/A2/T1..T4) three sweeps are enumerated completely: the access matrix "
+            "(P/U/W x base address incl. near 0 and 2^32 x alignment 0..3 x CPSR.E x SCTLR.A x SCTLR.U x data x mode x arch "
+            "6/7), address arithmetic (immediate alphabet / index shifts x offset values), and register patterns (Rn=SP/PC, "
+            "Rt=PC with interworking targets, Rn==Rt). Address, bytes transferred, extension, write-back, LoadWritePC and "
+            "the frame condition are compared through the full snapshot.",
+            "Trusted: armmc/ref/rows_ldst.py, memmodel.py, exc.py. Exclusive stores accept either architecturally permitted "
+            "outcome; UNKNOWN results are don't-care; MPU off.", "3 C02"),
+    "C09": ("product enumeration of generated instances per encoding row over a lane-boundary operand alphabet, "
+            "stepped on the real emulator, whole post-state compared with the reference model",
+            "For each of the 194 multiply / divide / saturating / parallel / extend / bit-field / reverse encoding rows: "
+            "register patterns x operand pairs (triples for accumulates) from a lane alphabet that contains products that "
+            "are multiples of 2^32, accumulates that wrap to 0 mod 2^64, INT_MIN/-1 and divisor 0 x every rotation / "
+            "saturation position / (lsb,width) x prior Q x prior GE x S x arch 4/6/7 x divide trapping; result, N/Z, "
+            "sticky Q, GE lanes and the frame condition are compared.",
+            "Trusted: armmc/ref/rows_media.py. Operand values from the alphabet only. One open known finding (BFI).",
+            "3 C09"),
+    "C10": ("explicit-state DFS over register-file event histories on the real Registers object with all views "
+            "compared against an independent banking table; range invariant over instruction alphabets",
+            "(a) every history of depth 3 over {mode switch, write Rn in the current mode, write by explicit mode, SPSR "
+            "write, exception entry} from 5 (thorough: 9) start modes x secure/non-secure x 3 configurations: after every "
+            "event the whole snapshot, the 15 x 9 (n, mode) view table, the current-mode views and the SPSR view are "
+            "compared with ref.state.phys / ref.exc. (b) after every step of all 2^16 Thumb halfwords and of the "
+            "harvested alphabet + single-bit operand variants, from 5 boundary register files x 3 modes x instruction "
+            "addresses incl. the last word below 2^32, every register, SPSR, ELR_hyp, CPSR and the PC must be an int "
+            "in 0..2^32-1.",
+            "Trusted: ref.state.phys (banking table from B1.3.2). Event menus shrink with depth (stated in evidence).",
+            "3 C10"),
 }
 NOT_YET = "check not built yet in this round (see DESIGN.md section 3 for the planned bounded-exhaustive formulation)"
 
